@@ -92,6 +92,9 @@ func checkRuntimeView(e *executor, r *stepResult) *vfkit.Violation {
 					sig += ":undelivered-and-not-pending"
 				} else if r.Err != nil || r.CfgError != nil || e.failedPending {
 					sig += ":after-failed-request:" + e.cfg.policyName() + ":" + e.failedKind(c.ID)
+					if f.name == "cpuset.cpus" && e.failedKind(c.ID) == "CreateContainer(create)" && blnOnlyOutOfScopeSharingDropped(e, c.ID, f.rt, f.cach) {
+						sig += ":out-of-scope-sharing-dropped"
+					}
 					if os.Getenv("VERIF_DEBUG_CLASSES") != "" {
 						fmt.Fprintf(os.Stderr, "CLASS %s %s %s\n", sig, e.cfg.policyName(), e.failedKind(c.ID))
 					}
@@ -117,4 +120,37 @@ func checkRuntimeView(e *executor, r *stepResult) *vfkit.Violation {
 		return viol(P, "no change stays pending after the reply", sig, "after %s (err=%v): pending %v", r.Desc, r.Err, pend)
 	}
 	return nil
+}
+
+// blnOnlyOutOfScopeSharingDropped: balloons keeps an idle CPU shared with a
+// balloon after the balloon shrank out of that CPU's sharing scope; the next
+// event that touches the CPU (even one that is undone, as in a failed
+// creation) drops it. Such a correction is told apart from a real loss: true
+// when the cache cpuset differs from the runtime's only by CPUs that are not
+// idle CPUs inside the sharing scope of the container's balloon.
+func blnOnlyOutOfScopeSharingDropped(e *executor, id, rt, cached string) bool {
+	if e.h.policy != polBalloons {
+		return false
+	}
+	v := e.blnView()
+	bl := v.byCtr[id]
+	if len(bl) != 1 {
+		return false
+	}
+	b := bl[0]
+	d := v.defs[b.Def]
+	if d == nil || d.ShareIdle == "" {
+		return false
+	}
+	rtSet, cacheSet := set(rt), set(cached)
+	if !cacheSet.SubsetOf(rtSet) {
+		return false
+	}
+	all := vfkit.IDSet{}
+	for _, o := range v.snap.Balloons {
+		all = all.Union(set(o.Cpus))
+	}
+	idle := e.blnAvailable().Minus(all)
+	inScope := scopeCPUs(e.h.topo, d.ShareIdle, set(b.Cpus)).Intersect(idle).Minus(e.h.topo.IsolatedCPUs())
+	return rtSet.Minus(cacheSet).Intersect(inScope).Empty()
 }
